@@ -1042,23 +1042,31 @@ func TestCx16Events(t *testing.T) {
 	defer res.Write(t)
 
 	var all []hcase
-	if rp, ok := hx.LoadReplay[hcase](t); ok && len(rp.Ops) > 0 {
-		all = []hcase{rp}
-	}
-	raw := hx.LoadCases[hcase](t, "EventHooksHist")
 	var table map[string]cfgSpec
-	seen := map[string]bool{}
-	for _, c := range raw {
-		if c.Table != nil {
-			table = c.Table
-			continue
+	if p := hx.Replay(); p != "" {
+		// a replay file of this driver carries the history and the configuration table (TLC is
+		// not run for a replay); anything else (a rejected trace, a case of another driver of
+		// this property) is not for this driver
+		var w struct {
+			Case hcase `json:"case"`
 		}
-		if hx.Replay() != "" {
-			continue
+		b, _ := os.ReadFile(p)
+		if json.Unmarshal(b, &w) != nil || len(w.Case.Ops) == 0 || w.Case.Table == nil || w.Case.Ops[0].C == "" {
+			return
 		}
-		if k := c.key(); !seen[k] {
-			seen[k] = true
-			all = append(all, c)
+		table = w.Case.Table
+		all = []hcase{{Ops: w.Case.Ops}}
+	} else {
+		seen := map[string]bool{}
+		for _, c := range hx.LoadCases[hcase](t, "EventHooksHist") {
+			if c.Table != nil {
+				table = c.Table
+				continue
+			}
+			if k := c.key(); !seen[k] {
+				seen[k] = true
+				all = append(all, c)
+			}
 		}
 	}
 	if table == nil || len(all) == 0 {
@@ -1113,9 +1121,9 @@ func TestCx16Events(t *testing.T) {
 			defer mu.Unlock()
 			if err != nil {
 				if hg, isHang := err.(hang); isHang {
-					res.Add(hx.Mismatch{Key: prefix + "hang/" + h.key(), What: hg.what + " (twice in a row, fresh process each time)", Case: h})
+					res.Add(hx.Mismatch{Key: prefix + "hang/" + h.key(), What: hg.what + " (twice in a row, fresh process each time)", Case: hcase{Ops: h.Ops, Table: table}})
 				} else if cr, isCrash := err.(crash); isCrash && strings.Contains(cr.stderr, "panic") {
-					res.Add(hx.Mismatch{Key: prefix + "crash/" + h.key(), What: "the process panicked (twice in a row, fresh process each time): " + cr.Error(), Case: h})
+					res.Add(hx.Mismatch{Key: prefix + "crash/" + h.key(), What: "the process panicked (twice in a row, fresh process each time): " + cr.Error(), Case: hcase{Ops: h.Ops, Table: table}})
 				} else if res.Infra == "" {
 					res.Infra = "history " + h.key() + ": " + err.Error()
 				}
